@@ -106,15 +106,23 @@ def probes(has_rec, opened):
                     ('f 0 0 var1', False), ('f 0 0 var', False), ('f 0 0 vars', False), ('f 0 0 varm', False),
                     ('f 0 0 varn', False), ('f 0 0 flex', False), ('f 0 0 vard', False), ('f 0 0 mvar', False),
                     ('f 0 1 var1', False), ('f 0 1 varn', False), ('f 0 1 mvar', False), ('f 0 1 vars', False),
-                    ('b 0 0 mvar', False), ('b 0 0 vard', False), ('c 1 0 var', False)]
+                    ('b 0 0 mvar', False), ('b 0 0 vard', False), ('c 1 0 var', False),
+                    # zero-length forms (trailing z): num == 0 for varn, a zero in count[], bufcount == 0, null filetype.
+                    # The ncid / permission / mode / varid tests still come first.
+                    ('f 0 0 varn z', True), ('g 0 0 varn z', False), ('b 0 0 varn z', False), ('f 1 0 varn z', False),
+                    ('f 0 0 vara z', True), ('f 0 1 vara z', False), ('g 0 0 vara z', False), ('f 0 0 vars z', False),
+                    ('f 0 0 varm z', False), ('f 0 0 flex z', False), ('f 0 1 flex z', False), ('f 0 0 vard z', False),
+                    ('b 0 0 vard z', False), ('f 0 0 mvar z', False)]
             if has_rec and (is_put or opened):
-                base += [('r 0 0 vara', False), ('r 0 1 vara', False)]
+                base += [('r 0 0 vara', False), ('r 0 1 vara', False), ('r 0 0 vara z', False), ('r 0 0 varn z', False)]
             for a, core in base:
                 add('rw %d %d %s' % (is_put, coll, a), core)
     for k in ('iput', 'iget', 'bput'):
         base = [('f 0 0 vara', True), ('f 0 1 vara', False), ('f 1 0 vara', False), ('g 0 0 vara', False),
                 ('b 0 0 vara', False), ('c 1 0 vara', False), ('f 0 0 var1', False), ('f 0 0 varn', False),
-                ('b 1 1 varn', False)]
+                ('b 1 1 varn', False), ('f 0 0 flex', False),
+                ('f 0 0 varn z', True), ('g 0 0 varn z', False), ('f 1 0 varn z', False), ('f 0 0 vara z', False),
+                ('f 0 1 vara z', False), ('f 0 0 flex z', False), ('f 0 1 flex z', False)]
         if has_rec and (k != 'iget' or opened):
             base += [('r 0 0 vara', False)]
         for a, core in base:
